@@ -29,7 +29,8 @@ def run(c):
         variants = [("LocalDelivery", "LocalDeliveryMC.and.cfg", "DeliveredToAllowedPort"),
                     ("RouterConfig", "RouterConfigMC.noprop.cfg", "RangeInForce")]
         if c.thorough:
-            variants += [("LocalDelivery", "LocalDeliveryMC.allor.cfg", "ServiceToRegisteredInstance"),
+            variants += [("LocalDelivery", "LocalDeliveryMC.nexthdr.cfg", "DeliveredToAllowedPort"),
+                         ("LocalDelivery", "LocalDeliveryMC.allor.cfg", "ServiceToRegisteredInstance"),
                          ("RouterConfig", "RouterConfigMC.provonly.cfg", "RangeInForce")]
         for (mod, cfg, inv) in variants:
             b = c.tlc(mod, cfg, workers=2, timeout=600)
@@ -64,7 +65,7 @@ def run(c):
                 lo, hi = _eff(cur)
                 cls = "in" if lo <= e["field"] <= hi else ("below" if e["field"] < lo else "above")
                 shapes.add((cur["how"], cur["rangeVsInternal"], cur["rangeKind"], cur["ovLo"] >= 0, cur["ovHi"] >= 0,
-                            e["kind"], e["dst"], cls))
+                            e["kind"], e["dst"], e["ext"], cls))
     st = _crypto.stats(r)
     if not c.replay:
         if st.get("delivered", 0) == 0:
